@@ -37,9 +37,10 @@ Definition sig_flags : flags := {| lhs_unwrap := false; force_rhs := false; sig_
 (* the call sites *)
 Definition fl_assign : flags := classless.          (* assignment_type.rs: use_class(..).lhs_unwrap(false); expected = declared *)
 Definition fl_argument : flags := classless.        (* function_arguments.rs: lhs_unwrap(false); expected = parameter *)
-Definition fl_return : flags :=                     (* return.rs: lhs_unwrap(true); expected = declared return type *)
+Definition fl_return : flags := classless.          (* return.rs: lhs_unwrap(false); expected = declared return type *)
+Definition fl_reassign : flags := classless.        (* reassignment.rs: lhs_unwrap(false); expected = type of the target *)
+Definition fl_unwrapping : flags :=                 (* no call site uses lhs_unwrap(true) any more; kept to pin what the flag does *)
   {| lhs_unwrap := true; force_rhs := false; sig_check := false; enforce_len := false |}.
-Definition fl_reassign : flags := fl_return.        (* reassignment.rs: lhs_unwrap(true), called as value.eq_complex(target) *)
 Definition fl_or : flags := classless.              (* math_expr.rs optional_or: use_class(..); expected = unwrapped primary *)
 
 (* disregard_distractors(false) *)
@@ -88,7 +89,8 @@ Fixpoint cmp (fixed : bool) (fuel : nat) (md : option flags) (t u : ty) {struct 
         (* ListType::eq, all with classless flags *)
         | TMixed t1, TMixed t2 => oand (Some (len_ok fixed t1 t2)) (all2 (eqc classless) t1 t2)
         | TOpen a, TOpen b => eqc classless a b
-        | TMixed t1, TOpen t2 | TOpen t2, TMixed t1 => all1 (fun x => eqc classless t2 x) t1
+        | TMixed t1, TOpen t2 => all1 (fun x => eqc classless x t2) t1      (* every slot expects an element *)
+        | TOpen t2, TMixed t1 => all1 (fun x => eqc classless t2 x) t1
         | TMap k1 v1, TMap k2 v2 => oand (teq k1 k2) (teq v1 v2)
         (* FunctionType::eq *)
         | TFn p1 r1, TFn p2 r2 =>
@@ -113,7 +115,8 @@ Fixpoint cmp (fixed : bool) (fuel : nat) (md : option flags) (t u : ty) {struct 
             match lhs, rhs with
             | TMixed t1, TMixed t2 => oand (Some (len_ok fixed t1 t2)) (all2 (eqc f) t1 t2)
             | TOpen a, TOpen b => eqc f a b
-            | TMixed t1, TOpen t2 | TOpen t2, TMixed t1 => all1 (fun x => eqc f t2 x) t1
+            | TMixed t1, TOpen t2 => all1 (fun x => eqc f x t2) t1
+            | TOpen t2, TMixed t1 => all1 (fun x => eqc f t2 x) t1
             | _, _ =>
                 if is_nil_ty lhs && force_rhs f then Some true
                 else if negb (force_rhs f) &&
